@@ -1,7 +1,7 @@
 """C50 — ordering lists and association proxies behave as their collection types: OrderingList position bookkeeping and the
 list proxy _AssociationList (append, extend, pop, int-index get/set/del, clear, len) and the dict proxy _AssociationDict
 (__getitem__, __setitem__, __delitem__, __contains__, get, setdefault, clear, popitem) and the set proxy _AssociationSet (__contains__, add, discard, clear,
-remove, pop, -=, |=, __bool__, __len__), all against the view of proxied values, under proof; operation sequences (bound / un-instrumented OrderingList, association proxies) as the bounded complement."""
+remove, pop, -=, |=, update, difference_update, __bool__, __len__), all against the view of proxied values, under proof; operation sequences (bound / un-instrumented OrderingList, association proxies) as the bounded complement."""
 import importlib
 import contracts.orderinglist  # noqa: F401
 import contracts.assoc_list  # noqa: F401
@@ -22,6 +22,6 @@ def run(run, tier, seed, args):
         "under proof: _order_entity, reorder, append, insert, pop, remove, __delitem__(int); __setitem__ (known defects DESIGN §6 #6/#7), inherited extend/sort/reverse (#18) are in the bounded complement",
         "_AssociationSet: view = {getter(m) for m in col}; `==` between a proxied value and the argument is read as identity of the modelled values; distinct members carry "
         "distinct values (precondition of add / discard / remove / pop / -=, re-established by each); `x in self` inside add() is the call of __contains__ (its contract); "
-        "update / the binary operators / _bulk_replace are in the bounded complement",
+        "the binary operators / _bulk_replace are in the bounded complement",
         "_AssociationList: view = [getter(m) for m in col]; getter / creator are pure and _create(value) returns an object whose proxied value is value (the round trip the class documents as assumed); `col` (lazy_collection()) is read as a list attribute; list insert / slices / remove / iteration, dict setdefault / get / update / _bulk_replace and the set proxy are in the bounded complement",
     ]
